@@ -163,3 +163,23 @@ fn c18_get_memory_region_untouched() {
     untouched_case(U256([0, 1, 0, 0]), U256::from(1u64), false); // offset 2^64 (low limb 0)
     untouched_case(U256([m32, 0, 0, 0]), U256::from(1u64), false); // offset + size = 2^32
 }
+
+// ---- EXPERIMENTS (to be removed)
+#[kani::proof]
+#[kani::unwind(40)]
+fn u1() {
+    untouched_case(U256([u64::MAX; 4]), U256::zero(), true);
+    untouched_case(U256::zero(), U256([1, 0, 0, 1]), false);
+}
+#[kani::proof]
+#[kani::unwind(40)]
+fn u2() {
+    untouched_case(U256([u64::MAX; 4]), U256::zero(), true);
+    untouched_case(U256([0, 1, 0, 0]), U256::from(1u64), false); // offset 2^64 (low limb 0)
+}
+#[kani::proof]
+#[kani::unwind(40)]
+fn u3() {
+    untouched_case(U256([u64::MAX; 4]), U256::zero(), true);
+    untouched_case(U256([0xFFFF_FFFF, 0, 0, 0]), U256::from(1u64), false); // offset + size = 2^32
+}
